@@ -4,6 +4,7 @@
 
    from_request: chunked? → new_chunked | cl? → (cl > 0? → new_fixed | new_empty) | new_empty   = `BodyReader.fromRequest`
                  (chunked is tested BEFORE the length: RFC 9112 §6.3, C05_reader_choice)
+   from_response: the same ladder ending in new_eof (a response without framing is delimited by connection close) = `BodyReader.fromResponse`
    note:         err? → flag set? → flag = true                                                  = `BodyReader.note`
                  (EVERY error of `read` sets the flag — no error kind is exempt)
    read:         match { inner read ×3 } ; note                                                  = `BodyReader.read`
@@ -22,6 +23,7 @@ namespace Khttp.Body
 
 def expectedBodySkeleton : List (String × List String) :=
   [("from_request", ["chunked?", "{", "new_chunked", "}", "cl?", "{", "cl > 0?", "{", "new_fixed", "}", "{", "new_empty", "}", "}", "{", "new_empty", "}"]),
+   ("from_response", ["chunked?", "{", "new_chunked", "}", "cl?", "{", "cl > 0?", "{", "new_fixed", "}", "{", "new_empty", "}", "}", "{", "new_eof", "}"]),
    ("note", ["err?", "{", "flag set?", "{", "flag = true", "}", "}"]),
    ("drain", ["eof|empty?", "{", "return", "}", "loop", "{", "match", "read", "{", "Ok(0) => break", "Ok(_) => continue", "Err(_) => break", "}", "}"]),
    ("read", ["match", "{", "inner read", "inner read", "inner read", "}", "note"]),
